@@ -140,7 +140,7 @@ PROPS = {
                        "model leaves iteration order unconstrained (that is the per-process seed), so an order-dependent result cannot satisfy such a postcondition.  Proved on text extracted from /repo: the "
                        "function Amount::sorted_values that fixes the printing and iteration order of a multi-commodity amount (balance, register, eval, error texts, first missing rate), Balance::into_vec (account order of the "
                        "balance report), the statements of Ledger::balance that order the accounts before conversion, the statements of compute_price_table that order the neighbours of a commodity (tie-breaking among "
-                       "equally distant rates) and the statements of MatchAndExpr::try_from that fix the order of a rewrite rule's field matchers each return the canonical listing (every entry once, strictly increasing key); lemma_canonical_unique "
+                       "equally distant rates) and the statements of MatchAndExpr::try_from that fix the order of a rewrite rule's field matchers, and ReportContext::all_accounts (the order of `okane accounts`; whole function) each return the canonical listing (every entry once, strictly increasing key); lemma_canonical_unique "
                        "proves that two canonical listings of the same map are equal, so two runs agree.  SingleAmount::try_from(&Amount) never picks 'the first' entry of a multi-commodity amount (C08 obligation reused).  "
                        "Four genuine defects were found and fixed (f727f42, bdc6d41, f33a1e3, 4d6c148).  Bounded: the c13 family runs balance / register / eval / error texts and camt053 / CSV imports 24 times per input in one "
                        "process (fresh RandomState per map) and compares the texts byte for byte.  NOT decided: the rest of the price search (BinaryHeap order given a fixed push sequence is taken to be deterministic), ReportContext::all_accounts, environment / clock / locale.",
@@ -151,7 +151,7 @@ PROPS = {
                         "assumed: Ord for str / derive(Ord) for RewriteField are antisymmetric on the keys, i.e. two distinct interned handles of one context never carry the same name",
                         "the loops that print the listing in index order (write! plumbing) are not under contract"],
         "bounded": ["c13 family: 16 ledgers (incl. multi-commodity expressions that cancel, in amount / assertion / assignment / cost / lot position) x (balance, balance -X up-to-date / historical, register, eval, error text), 4 camt053 rule shapes + 1 CSV rule, 24 runs each in one process"],
-        "not_decided": ["that BinaryHeap pops equal-distance entries in an order fixed by the push sequence (std)", "ReportContext::all_accounts (sorted, not under contract)", "process-level inputs: environment, clock, locale"],
+        "not_decided": ["that BinaryHeap pops equal-distance entries in an order fixed by the push sequence (std)", "process-level inputs: environment, clock, locale"],
     },
     "C14": {
         "level": "other",
